@@ -101,9 +101,12 @@ def run_tlc(module, cfg, workers=8, timeout=1800, extra_args=(), env=None,
     res.wall = time.time() - t0
     with open(out_path, errors='replace') as fp:
         text = fp.read()
-    for m in _REC.finditer(text):
+    # TLC's workers print the records in an order that differs from run to run: sort them, so that
+    # every seeded sample drawn from them is the same sample every time
+    raw = sorted(m.group(1) for m in _REC.finditer(text))
+    for r in raw:
         try:
-            res.records.append(json.loads(json.loads('"%s"' % m.group(1))))
+            res.records.append(json.loads(json.loads('"%s"' % r)))
         except ValueError:
             res.error = res.error or 'unparsable record'
     # statistics: last occurrence wins
